@@ -309,6 +309,7 @@ class State:
     keywords = []
     exe = None
     names = []
+    unit = None
 
 
 def mtest_cmd():
@@ -333,8 +334,10 @@ def parse_only_terminates(text):
         ml.write_text(p, text)
         env = fuzzpy.asan_env({"ASAN_OPTIONS": FUZZ_ASAN, "VERIF_FUZZ_PARSE_ONLY": "1", "VERIF_FUZZ_LIBDIR": LIBDIR,
                                "VERIF_WORK": d})
-        rc, so, se = run([State.exe, p, "-timeout=100", "-detect_leaks=0"], cwd=d, timeout=120, env=env)
-        return rc != -999 and "ERROR: libFuzzer: timeout" not in se
+        rc, so, se, cpued, walled = ml._run_limited([State.exe, p, "-timeout=600", "-detect_leaks=0"], d, env, 60, 600)
+        if walled:
+            return None
+        return not cpued
     finally:
         shutil.rmtree(d, ignore_errors=True)
 
@@ -387,10 +390,15 @@ def check_mutant(case):
         return Result(False, key=k, msg="input of the recorded class " + k)
     out = run_mtest(text)
     classes = ["scheme." + ("ptest" if is_ptest(text) else "mtest"), "outcome." + out.cls]
+    if out.cls == "starved":
+        return Result(True, classes=classes)
     if out.cls == "timeout":
         bad, cls = judge_timeout(text)
         if bad:
-            return Result(False, key="C54.timeout.parser", msg="mtest does not terminate within 90 s (3/3) and neither does the parser alone")
+            key, msg = "C54.timeout.parser", "mtest does not terminate within 90 s of CPU time (3/3) and neither does the parser alone"
+            if State.unit is None:
+                return Result(False, key=key, msg=msg)
+            State.unit.fail("mutants", key, msg, {"text": text})
         return Result(True, classes=classes + [cls])
     if out.cls == "violation":
         return Result(False, key="C54." + canonical_key(out.key), msg="mtest --verbose=quiet: %s\n%s\n%s" % (out.detail, out.report[:2500], out.stderr[-600:]))
@@ -457,7 +465,7 @@ def confirm_artifact(u, art):
         bad, cls = judge_timeout(text)
         if bad:
             fuzzpy.save_artifact(u, art, REPLAY_DIR)
-            u.fail("fuzz", "C54.timeout.parser", "mtest does not terminate within 90 s (3/3)", {"text": text}, ext=".json")
+            u.fail("fuzz", "C54.timeout.parser", "mtest does not terminate within 90 s of CPU time (3/3)", {"text": text}, ext=".json")
             return True
         count("artifact." + cls)
         return False
@@ -518,6 +526,7 @@ def main():
     if rp:
         sys.exit(replay(rp))
     u = LockedUnit(UNIT)
+    State.unit = u
     t0 = time.time()
     workdir = os.path.join(WORK, "setup")
     os.makedirs(workdir, exist_ok=True)
